@@ -4,9 +4,12 @@
 #pragma once
 #include <cstddef>
 #include <string>
+#include <string_view>
 #include <vector>
 
 std::string w_trim(const char *p, size_t n);
+std::string w_trim_s(const std::string &s);      // through the implicit std::string -> igris::buffer conversion
+std::string w_trim_sv(std::string_view s);         // through the implicit string_view -> igris::buffer conversion
 std::string w_join_iter(const std::vector<std::string> &v, const char *delim, const char *prefix, const char *postfix);
 int w_argvc_split(char *data, char **argv, int argcmax);
 int w_argvc_split_n(char *data, int maxlen, char **argv, int argcmax);
